@@ -125,7 +125,9 @@ def check(case, ctx):
         for i in (j, kk):
             ctx.near("rot.B.perm=B", O.maxabs(R[i] @ B @ P[i] - B) / O.maxabs(B), 1e-9, "pairing/%d" % k,
                      "system %d: rot[%d].B.perm[%d] != B for %s.form_b_mat(%r)" % (k, i, i, mname, cell))
-    mis = np.asarray(symmetry.Umis(U1, U2, k), float)
+    ctx.keep("Umis(previous pair)", symmetry.Umis(U2, Q, k))
+    mis_obj = ctx.keep("Umis", symmetry.Umis(U1, U2, k))
+    mis = np.asarray(mis_obj, float)
     if mis.shape != (N, 2):
         ctx.fail("umis-shape", "Umis shape %r for system %d" % (mis.shape, k))
         return
@@ -151,5 +153,8 @@ def check(case, ctx):
     cmp("U1.rot", U1 @ R[kk], U2)
     cmp("common-rotation", Q @ U1, Q @ U2)
     cmp("swap", U2, U1)
+    # the cached operator tables are still the freshly computed ones (nobody wrote into them)
+    if not np.array_equal(np.asarray(symmetry.ROTATIONS[k]), np.asarray(symmetry.rotations(k))):
+        ctx.fail("cache/%d" % k, "ROTATIONS[%d] no longer equals rotations(%d) after the calls of this case" % (k, k))
     same = np.asarray(symmetry.Umis(U1, U1, k), float)[:, 1]
     ctx.near("Umis(U,U) contains 0", 1 - math.cos(math.radians(float(np.min(same)))), 1e-12, "umis-self", "Umis(U,U) minimum is %r deg" % float(np.min(same)))
